@@ -238,10 +238,46 @@ func (ex *Exec) newFmtError(msg *Term, wrapped Value) Value {
 	return Iface{T: types.NewPointer(et), V: cell}
 }
 
-// sprintfTerm gives a deterministic-by-arguments atom for formatted strings when all
-// arguments are scalar terms, else a fresh atom.
+// sprintfTerm: formatted strings are uninterpreted functions of the format and the scalar
+// arguments (so equal arguments give equal strings); anything else yields a fresh atom.
 func (ex *Exec) sprintfTerm(format Value, args []Value) *Term {
-	return ex.freshInternal("sprintf", AtomSort)
+	f, ok := format.(*Term)
+	if !ok || !f.IsConst() {
+		return ex.freshInternal("sprintf", AtomSort)
+	}
+	var ts []*Term
+	sig := ""
+	for _, a := range args {
+		if i, isI := a.(Iface); isI {
+			a = i.V
+			if i.T == nil {
+				return ex.freshInternal("sprintf", AtomSort)
+			}
+		}
+		t, isT := a.(*Term)
+		if !isT {
+			return ex.freshInternal("sprintf", AtomSort)
+		}
+		ts = append(ts, t)
+		sig += t.Sort.String()
+	}
+	if len(ts) == 0 {
+		return ex.ts.Str(f.S)
+	}
+	allConst := true
+	for _, t := range ts {
+		if !t.IsConst() {
+			allConst = false
+		}
+	}
+	if allConst {
+		parts := []string{f.S}
+		for _, t := range ts {
+			parts = append(parts, t.String())
+		}
+		return ex.ts.Str("sprintf(" + strings.Join(parts, ",") + ")")
+	}
+	return ex.ts.App("sprintf:"+f.S+"|"+sig, AtomSort, ts...)
 }
 
 func variadic(v Value) []Value {
